@@ -16,13 +16,13 @@ def clean():
     sh("git checkout -- . && git clean -fdq")
 clean()
 res = {"ran": []}
-rc0, o0 = sh(f"sh {out}/run.sh", timeout=900)
+rc0, o0 = sh(f"bash {out}/run.sh", timeout=900)
 res["demo_clean_rc"] = rc0
 rc, o = sh(f"git apply {out}/patch.diff")
 res["apply_rc"] = rc
 rcb, ob = sh("go build ./...")
 res["build_rc"] = rcb
-rc1, o1 = sh(f"sh {out}/run.sh", timeout=900)
+rc1, o1 = sh(f"bash {out}/run.sh", timeout=900)
 res["demo_patched_rc"] = rc1
 files = sh("git diff --name-only")[1].split()
 pkgs = sorted({"./" + os.path.dirname(f) + "/" for f in files if f.endswith(".go")})
